@@ -377,7 +377,7 @@ impl Runner {
             self.ev.count("fault_fired");
             self.ev.count(&format!("fault_fired/{}", out.fault_fired.as_ref().unwrap().1));
         }
-        let post = observe(&self.w);
+        let mut post = observe(&self.w);
         let mut ledger = ledger_from(&self.w, &actor_addr, step, &out);
         // native coins attached to a sub-message move without an event: whatever the events leave unexplained is turned
         // into ledger entries (largest debtor to largest creditor, by account name) so that the oracles see those moves
@@ -505,8 +505,14 @@ impl Runner {
             let pre = std::mem::take(&mut self.obs);
             let ctx = Ctx { pre: &pre, post: &post, preq: &preq, step, out: &out, ledger: &ledger, model: &self.model, idx };
             oracles::step(&self.prop, &ctx, &self.w, &mut self.ev);
+            let fund_before = self.w.addrs.insurance_fund.clone();
             self.update_model(&pre, &post, step, &out);
             self.reach(&pre, &post, step, &out);
+            if self.w.addrs.insurance_fund != fund_before {
+                // the engine was moved to the other fund: what the observation says about "the" fund (registry, owner)
+                // has to be read again from the fund now in force, before any probe or generator decision relies on it
+                post = observe(&self.w);
+            }
         }
         self.obs = post;
         self.last = Some((out.clone(), ledger.clone(), preq.clone()));
